@@ -1413,6 +1413,10 @@ func (t *TypeSystem) validateTypeRestrictions(objectType string, relationName st
 // validateConditions validates the conditions provided in the model.
 func (t *TypeSystem) validateConditions() error {
 	for key, c := range t.conditions {
+		if c == nil || c.Condition == nil {
+			return fmt.Errorf("condition '%s' is not defined", key)
+		}
+
 		if key != c.Name {
 			return fmt.Errorf("condition key '%s' does not match condition name '%s'", key, c.Name)
 		}
